@@ -31,6 +31,7 @@ PURE_CALLS = {'len', 'min', 'max', 'abs', 'int', 'float', 'bool', 'tuple', 'divm
               'np.dtype', 'numpy.dtype', 'struct.calcsize', 'type', 'getattr', 'hasattr', 'enumerate', 'zip', 'reversed',
               'pad'}     # utils.pad: rounds up to a multiple (pure arithmetic)
 MAX_HELPER_STMTS = 30
+PUBLIC_HELPERS = False    # also dissolve small public helpers that no rule names
 
 
 def _anchors():
@@ -48,6 +49,11 @@ def _anchors():
                     continue
                 for m in re.finditer(r"""['"]([A-Za-z0-9_.]*\b_[a-z][A-Za-z0-9_]*)['"]""", src):
                     names.add(m.group(1).split('.')[-1])
+                # public names: every identifier that occurs inside a string literal of the analyser (qualified names of
+                # anchors, attribute and method names the rules look for)
+                for m in re.finditer(r"""['"]([^'"\n]{1,200})['"]""", src):
+                    for w in re.findall(r'[A-Za-z_][A-Za-z0-9_]*', m.group(1)):
+                        names.add(w)
     return names
 
 
@@ -525,6 +531,31 @@ class ModuleNormaliser:
                 self.log.append(('if-stmt', fn.name, s.lineno))
                 body[i:i + 1] = [new]
                 continue
+            # D.update({k: v for k in <known elements>})  ->  D[k0] = v0; D[k1] = v1; ..
+            if isinstance(s, ast.Expr) and isinstance(s.value, ast.Call) and isinstance(s.value.func, ast.Attribute) and \
+                    s.value.func.attr == 'update' and len(s.value.args) == 1 and not s.value.keywords and \
+                    isinstance(s.value.args[0], ast.DictComp) and len(s.value.args[0].generators) == 1 and self.pure(s.value.func.value):
+                dc = s.value.args[0]
+                g = dc.generators[0]
+                elems = _lit_elems(g.iter, self.single_def_lookup(fn))
+                names = [g.target.id] if isinstance(g.target, ast.Name) else \
+                    [x.id for x in g.target.elts] if isinstance(g.target, ast.Tuple) and all(isinstance(x, ast.Name) for x in g.target.elts) else None
+                if elems is not None and 1 <= len(elems) <= 8 and not g.ifs and names and self.pure(dc.key) and self.pure(dc.value):
+                    new_stmts = []
+                    okk = True
+                    for el in elems:
+                        vals = [el] if isinstance(g.target, ast.Name) else (el.elts if isinstance(el, ast.Tuple) and len(el.elts) == len(names) else None)
+                        if vals is None:
+                            okk = False
+                            break
+                        sub = _Subst(dict(zip(names, vals)))
+                        tgt = ast.Subscript(value=copy.deepcopy(s.value.func.value), slice=sub.visit(copy.deepcopy(dc.key)), ctx=ast.Store())
+                        a_ = ast.Assign(targets=[tgt], value=sub.visit(copy.deepcopy(dc.value)))
+                        new_stmts.append(_set_loc(a_, s))
+                    if okk:
+                        self.log.append(('update-unroll', fn.name, s.lineno))
+                        body[i:i + 1] = new_stmts
+                        continue
             # for a, b in itertools.product(X, Y): ..   ->   for a in X: for b in Y: ..   (X, Y pure; no break)
             if isinstance(s, ast.For) and not s.orelse and isinstance(s.iter, ast.Call) and \
                     U(s.iter.func) in ('itertools.product', 'product') and not s.iter.keywords and len(s.iter.args) >= 2 and \
@@ -748,10 +779,11 @@ class ModuleNormaliser:
             if f.id in nested:
                 return nested[f.id], 'nested', False, cls
             h = self.funcs.get(f.id)
-            if h is not None and _is_private(f.id):
+            if h is not None and (_is_private(f.id) or PUBLIC_HELPERS):
                 return h, 'module', False, None
             return None
-        if isinstance(f, ast.Attribute) and isinstance(f.value, ast.Name) and _is_private(f.attr):
+        if isinstance(f, ast.Attribute) and isinstance(f.value, ast.Name) and (_is_private(f.attr) or PUBLIC_HELPERS) \
+                and not f.attr.startswith('__'):
             cands = self.methods.get(f.attr, [])
             if len(cands) != 1:
                 return None
@@ -786,7 +818,7 @@ class ModuleNormaliser:
     def inlinable(self, h, kind):
         if h.name in anchors() and kind != 'nested':
             return None
-        if kind != 'nested' and not _is_private(h.name):
+        if kind != 'nested' and not _is_private(h.name) and (h.name.startswith('__') or not PUBLIC_HELPERS):
             return None
         decos = [U(d) for d in h.decorator_list]
         if any(d not in ('staticmethod',) for d in decos):
